@@ -33,7 +33,7 @@ fn any_storage() -> wasmparser::StorageType {
 // @harness props=C01,C02,C13 tier=quick timeout=900
 #[kani::proof]
 #[kani::stub(alloc::fmt::format, crate::kh::no_format)]
-#[kani::unwind(5)]
+#[kani::unwind(10)]
 fn enc_type_func() {
     let p = [any_valtype(), any_valtype()];
     let r = [any_valtype()];
@@ -73,7 +73,7 @@ fn enc_type_func() {
 // @harness props=C01,C02,C13 tier=quick timeout=900
 #[kani::proof]
 #[kani::stub(alloc::fmt::format, crate::kh::no_format)]
-#[kani::unwind(5)]
+#[kani::unwind(10)]
 fn enc_type_array() {
     let e = any_storage();
     let mutable: bool = kani::any();
